@@ -1208,8 +1208,10 @@ def o_int2d(chk, dadi, inp):
     # result for this pdf must not depend on another pdf having been integrated on the same cache before with the same numbers
     if ext and len(params) == 3 and inp['pdf'] in ('biv_lognormal', 'biv_ind_gamma'):
         other = 'biv_ind_gamma' if inp['pdf'] == 'biv_lognormal' else 'biv_lognormal'
-        c2 = build_cache(dadi, inp['cache'])
+        import copy
+        c3 = build_cache(dadi, inp['cache'], fresh=True); c2 = copy.deepcopy(c3)      # two cache objects nothing has been integrated on yet
         try:
+            got = data_of(c3.integrate(params, None, sel, theta, None, exterior_int=ext))
             with np.errstate(all='ignore'):
                 c2.integrate(params, None, pdf_by_name(dadi, other), theta, None, exterior_int=ext)
         except Exception:
